@@ -1430,14 +1430,20 @@ impl Machine {
                 Instruction::Delay(dst, src, time) => {
                     let i = self.get_stack(src as i64);
                     let t = self.get_stack(time as i64);
-                    let delaysize_i =
-                        unsafe { self.delaysizes_pos_stack.last().unwrap_unchecked() };
+                    // `delay_sizes` lists the function's delays in the order they are executed: each
+                    // delay takes the next entry (the position restarts with every call of the function)
+                    let delaysize_i = {
+                        let pos = unsafe { self.delaysizes_pos_stack.last_mut().unwrap_unchecked() };
+                        let i = *pos;
+                        *pos += 1;
+                        i
+                    };
 
                     let size_in_samples = unsafe {
                         *self
                             .get_fnproto(func_i)
                             .delay_sizes
-                            .get_unchecked(*delaysize_i)
+                            .get_unchecked(delaysize_i)
                     };
                     #[cfg(mimium_verif)]
                     self.verif_record_state_access(b'D', size_in_samples as usize + 2);
@@ -1567,6 +1573,9 @@ impl Machine {
                 self.stack[0] = 0;
             }
             self.base_pointer = 1;
+            if let Some(pos) = self.delaysizes_pos_stack.first_mut() {
+                *pos = 0;
+            }
             self.execute(idx, None)
         } else {
             0
